@@ -11,6 +11,19 @@ BASE_NOTE = ("Trusted base: rustc front end/MIR construction as dumped by engine
              "crates assumed total. ")
 
 CLAIMS = {
+    "C08": dict(
+        category="other",
+        technique="per-function dependence (information-flow) analysis on MIR + abstract interpretation on bit-defined sub-domains",
+        text=("For each of the 16 ALU functions the dependence sets of result and carry-out on (A, B, carry-in) are computed by a "
+              "forward dependence analysis of the function's arm and must equal the documented sets; shape facts that follow from "
+              "the documentation are decided by abstract interpretation on sub-domains selected by one bit (A odd/even, A or B "
+              "with bit 7 set/clear, carry-in set/clear): constant outputs, pass-through identity, bit 0 to carry, the value of "
+              "bit 7 for the four shifts, carry hold/invert, carry-in forcing carry-out of the carry-holding add, and Z/N derived "
+              "from the result."),
+        note=("The numeric function table (sums, carry polarity of the subtracting adds) is NOT decided: exhausting 2 097 152 "
+              "points would be running the function. Two genuine defects were found and fixed (ADDH dropped carry-in; RR behaved "
+              "as LSR)."),
+        design="3/C08"),
     "C15": dict(
         category="proof",
         technique="abstract interpretation of the bus stages per control word and address cell; path enumeration over the micro-program CFG; write-log counting",
